@@ -140,6 +140,7 @@ def make_constraint_fun(ctx, j, spec):
     comps = spec["comps"]
     ret = spec.get("ret", "ndarray")
     has_obj = ctx.stmt.get("obj") is not None
+    twin = bool(ctx.stmt.get("twin"))
 
     def con(x, *args):
         xa = np.array(x, dtype=float)
@@ -161,7 +162,8 @@ def make_constraint_fun(ctx, j, spec):
             v = eval_scalar(cs, xe, xb)
             if args:
                 v += args[0]
-            v, fk = ctx.faulted(["con", j, ci], idx, xe, xb, v)
+            # twin constraints (C12.b) must receive bit-identical data: they share the objective's faults
+            v, fk = ctx.faulted("obj" if twin else ["con", j, ci], idx, xe, xb, v)
             vals.append(float(v))
             fks.append(fk)
         ctx.log({"k": "con", "j": j, "x": xb, "v": vals, "f": fks, "i": idx,
